@@ -492,8 +492,9 @@ def _run(pid, P, tier, seed, scratch, t0):
         wall_s=round(wall, 2),
         violations=len(violations),
     )
-    os.makedirs(os.path.join(HERE, 'evidence'), exist_ok=True)
-    json.dump(ev, open(os.path.join(HERE, 'evidence', '%s.json' % pid), 'w'), indent=1)
+    evdir = os.environ.get('VERIF_EVIDENCE_DIR') or os.path.join(HERE, 'evidence')  # seed runs write elsewhere
+    os.makedirs(evdir, exist_ok=True)
+    json.dump(ev, open(os.path.join(evdir, '%s.json' % pid), 'w'), indent=1)
 
     if violations:
         return 1
